@@ -87,6 +87,7 @@ def propagate(tags, line):
 	tags[dst] = t
 
 
+CALL_ANY_RE = re.compile(r"^(.+?) = (.+?)\((.*)\) -> \[return: (bb\d+)")
 CALL_RE = re.compile(r"^(_\d+) = (.+?)\((.*)\) -> \[return: (bb\d+)")
 
 
@@ -502,3 +503,349 @@ def run_c13(prop, tier):
 	json.dump(ev, open(os.path.join(vlib.VERIF, "evidence", f"{prop}.json"), "w"), indent=1)
 	print(f"[{prop}] tier={tier} queries={len(queries)} as-expected={len(good)} violations={violations} inconclusive={len(inconclusive)} wall={time.time() - t0:.0f}s")
 	return rc
+
+
+# =============================================================================================
+# C06: transform consistency of the converting reader (coverage vs lookup vs stream), MIR -> SMT
+# =============================================================================================
+def dump_mir_container():
+	os.makedirs(vlib.WORK, exist_ok=True)
+	r = vlib.sh(["rsync", "-a", "--delete", "--exclude", "/target", "--exclude", ".git", vlib.REPO + "/", MIRWS + "/"])
+	if r.returncode != 0:
+		raise Inconclusive("rsync failed")
+	os.utime(os.path.join(MIRWS, "versatiles_container", "src", "lib.rs"))
+	env = dict(vlib.ENV)
+	env["CARGO_TARGET_DIR"] = MIRTARGET
+	p = subprocess.run(["cargo", "+nightly", "rustc", "--offline", "-p", "versatiles_container", "--lib", "--", "-Zunpretty=mir"],
+		cwd=MIRWS, env=env, stdout=subprocess.PIPE, stderr=subprocess.PIPE, text=True)
+	if p.returncode != 0 or "fn " not in p.stdout:
+		raise Inconclusive("MIR dump of versatiles_container failed: " + p.stderr[-400:])
+	return p.stdout
+
+
+def flag_field_indices():
+	"""field indices of flip_y / swap_xy in struct TilesConverterParameters, read from the source"""
+	src = open(os.path.join(vlib.REPO, "versatiles_container/src/container/converter.rs")).read()
+	m = re.search(r"pub struct TilesConverterParameters\s*\{(.*?)\n\}", src, re.S)
+	if not m:
+		raise Inconclusive("struct TilesConverterParameters not found")
+	fields = re.findall(r"pub (\w+)\s*:", m.group(1))
+	if "flip_y" not in fields or "swap_xy" not in fields:
+		raise Inconclusive("flip_y / swap_xy fields not found")
+	return fields.index("flip_y"), fields.index("swap_xy")
+
+
+def transform_paths(mir, fn_pattern, idx_flip, idx_swap, source_call=None):
+	"""For every (flip, swap) assignment: the ordered list of TransformCoord calls on the path the function takes.
+	Returns {(flip, swap): [("flip"|"swap", receiver type), ...]} plus notes."""
+	header, body = function_body(mir, fn_pattern)
+	if body is None:
+		raise Inconclusive(f"function {fn_pattern} not found in the MIR dump")
+	blocks = parse_blocks(body)
+	# which locals / places carry a flag
+	debug = {}
+	for m in re.finditer(r"debug (flip_y|swap_xy) => ([^;]+);", body):
+		debug[m.group(2).strip()] = "flip" if m.group(1) == "flip_y" else "swap"
+	flag_of = {}
+	for lines in blocks.values():
+		for l in lines:
+			m = re.match(r"^(_\d+) = copy (.+);$", l)
+			if not m:
+				continue
+			dst, expr = m.groups()
+			if re.search(r"TilesConverterParameters\)\.%d: bool\)$" % idx_flip, expr) or re.fullmatch(r"\(_\d+\.%d: bool\)" % idx_flip, expr) and "TilesConverterParameters" in header:
+				flag_of[dst] = "flip"
+			elif re.search(r"TilesConverterParameters\)\.%d: bool\)$" % idx_swap, expr) or re.fullmatch(r"\(_\d+\.%d: bool\)" % idx_swap, expr) and "TilesConverterParameters" in header:
+				flag_of[dst] = "swap"
+			elif expr.strip() in debug:
+				flag_of[dst] = debug[expr.strip()]
+	for place, name in debug.items():
+		if re.fullmatch(r"_\d+", place):
+			flag_of[place] = name
+	# boolean combinations of flags (the optimiser turns `flip || swap` into `Ne(flip, swap)` + a second test)
+	exprs = {}
+	for lines in blocks.values():
+		for l in lines:
+			m = re.match(r"^(_\d+) = (Ne|Eq|BitOr|BitAnd|BitXor)\((?:copy|move) (_\d+), (?:copy|move) (_\d+)\);$", l)
+			if m:
+				exprs[m.group(1)] = (m.group(2), m.group(3), m.group(4))
+			m = re.match(r"^(_\d+) = Not\((?:copy|move) (_\d+)\);$", l)
+			if m:
+				exprs[m.group(1)] = ("Not", m.group(2), None)
+
+	def value_of(loc, flip, swap, depth=0):
+		if loc in flag_of:
+			return flip if flag_of[loc] == "flip" else swap
+		if loc in exprs and depth < 8:
+			op, a, b = exprs[loc]
+			va = value_of(a, flip, swap, depth + 1)
+			vb = value_of(b, flip, swap, depth + 1) if b else None
+			if va is None or (b and vb is None):
+				return None
+			return {"Ne": va != vb, "Eq": va == vb, "BitOr": va or vb, "BitAnd": va and vb, "BitXor": va != vb, "Not": not va}[op]
+		return None
+
+	result = {}
+	notes = []
+	for flip in (False, True):
+		for swap in (False, True):
+			seqs = set()
+			stack = [("bb0", (), False, 0)]
+			paths = 0
+			while stack:
+				cur, seq, seen_source, depth = stack.pop()
+				if depth > 300:
+					raise Inconclusive("path too long")
+				lines = blocks.get(cur)
+				if lines is None:
+					raise Inconclusive(f"block {cur} missing")
+				term = lines[-1]
+				# aliases of flag locals inside the block (e.g. _37 = copy _20)
+				for l in lines[:-1]:
+					m = re.match(r"^(_\d+) = (?:copy|move) (_\d+);$", l)
+					if m and m.group(2) in flag_of:
+						flag_of[m.group(1)] = flag_of[m.group(2)]
+				m = CALL_ANY_RE.match(term)
+				if m:
+					dst, callee, args, nxt = m.groups()
+					t = re.search(r"<(?:[\w:]+::)?(TileCoord3|TileBBoxPyramid|TileBBox) as (?:[\w:]+::)?TransformCoord>::(flip_y|swap_xy)$", callee)
+					if t:
+						seq = seq + ((("flip" if t.group(2) == "flip_y" else "swap"), t.group(1)),)
+					elif source_call and re.search(source_call, callee):
+						seen_source = True
+					elif "map_coord" in callee:
+						seq = seq + (("map_coord", "closure"),)
+					stack.append((nxt, seq, seen_source, depth + 1))
+					continue
+				m = re.match(r"^switchInt\((?:move|copy) (_\d+)\) -> \[(.*)\]", term)
+				if m:
+					loc, targets = m.groups()
+					tl = re.findall(r"(\w+): (bb\d+)", targets)
+					val = value_of(loc, flip, swap)
+					if val is not None:
+						tgt = dict(tl).get("0") if not val else dict(tl).get("otherwise", dict(tl).get("1"))
+						stack.append((tgt, seq, seen_source, depth + 1))
+					else:
+						# data-dependent branch (coroutine state, Poll, Option, Result): follow every non-"otherwise" target
+						# that is not the error/Pending arm; the value-0 arm is the success arm by construction of these enums
+						first = dict(tl).get("0") or tl[0][1]
+						stack.append((first, seq, seen_source, depth + 1))
+						others = [b for v, b in tl if v not in ("0", "otherwise") and b != first]
+						if "discriminant" in " ".join(lines) and len(tl) == 3 and not seen_source and source_call:
+							# an Option/bool-like decision BEFORE the source is consulted may be a guard: explore it too
+							for b in others:
+								stack.append((b, seq + (("guard-branch", cur),), seen_source, depth + 1))
+					continue
+				m = re.match(r"^goto -> (bb\d+)", term) or re.match(r"^drop\(.*\) -> \[return: (bb\d+)", term) or re.match(r"^assert\(.*\) -> \[success: (bb\d+)", term) or re.match(r"^_\d+ = .*-> \[return: (bb\d+)", term)
+				if m:
+					stack.append((m.group(1), seq, seen_source, depth + 1))
+					continue
+				if term.startswith("return") or term.startswith("coroutine_drop"):
+					paths += 1
+					if source_call and not seen_source:
+						notes.append(f"{fn_pattern[:40]} flip={flip} swap={swap}: a path returns before the source is consulted")
+					else:
+						seqs.add(seq)
+					continue
+				if term.startswith("unreachable") or term.startswith("resume") or term.startswith("terminate") or "unwind" in term.split("(")[0]:
+					continue
+				raise Inconclusive(f"terminator not understood: {term[:100]}")
+			if len(seqs) != 1:
+				raise Inconclusive(f"{fn_pattern[:50]} flip={flip} swap={swap}: {len(seqs)} different transform sequences on the success paths: {sorted(seqs)[:3]}")
+			result[(flip, swap)] = list(seqs.pop())
+	return result, notes, header.strip()
+
+
+def smt_apply(seq, x, y):
+	"""symbolic application of a transform sequence to the point (x, y); M = 2^z - 1"""
+	for op, _ty in seq:
+		if op == "flip":
+			y = f"(- M {y})"
+		elif op == "swap":
+			x, y = y, x
+	return x, y
+
+
+def smt_apply_box(seq, b):
+	"""box as (x0, y0, x1, y1), non-empty"""
+	x0, y0, x1, y1 = b
+	for op, _ty in seq:
+		if op == "flip":
+			y0, y1 = f"(- M {y1})", f"(- M {y0})"
+		elif op == "swap":
+			x0, y0, x1, y1 = y0, x0, y1, x1
+	return x0, y0, x1, y1
+
+
+def c06_query(kind, cov, lookup, sbox, smap):
+	L = ["(set-logic ALL)", "(declare-const z Int)", "(declare-const M Int)", "(declare-const x Int)", "(declare-const y Int)",
+		"(assert (and (>= z 0) (<= z 31)))"]
+	# M = 2^z - 1 as a table (z is small)
+	L.append("(assert (or " + " ".join(f"(and (= z {k}) (= M {2 ** k - 1}))" for k in range(32)) + "))")
+	L.append("(assert (and (>= x 0) (<= x M) (>= y 0) (<= y M)))")
+	tx, ty = smt_apply(cov, "x", "y")  # T(p): where a source tile p appears in the output (coverage transform)
+	if kind == "spec":
+		# the specification: flip first, then swap: T(x, y) = swap(flip(x, y))
+		want = smt_apply([op for op in cov], "x", "y")
+		flips = [op for op, _ in cov]
+		sx, sy = "x", "y"
+		if "flip" in flips:
+			sy = "(- M y)"
+		if "swap" in flips:
+			sx, sy = sy, sx
+		L.append(f"(assert (not (and (= {tx} {sx}) (= {ty} {sy}))))")
+	elif kind == "lookup":
+		# requesting c = T(p) must consult the source at p
+		lx, ly = smt_apply(lookup, tx, ty)
+		L.append(f"(assert (not (and (= {lx} x) (= {ly} y))))")
+	elif kind == "stream_coord":
+		# a tile streamed from source position p must be delivered at T(p)
+		mx, my = smt_apply(smap, "x", "y")
+		L.append(f"(assert (not (and (= {mx} {tx}) (= {my} {ty}))))")
+	elif kind == "stream_box":
+		# the box handed to the source must contain p exactly when the requested box contains T(p)
+		for v in ("a0", "b0", "a1", "b1"):
+			L.append(f"(declare-const {v} Int)")
+		L.append("(assert (and (>= a0 0) (<= a0 a1) (<= a1 M) (>= b0 0) (<= b0 b1) (<= b1 M)))")
+		sx0, sy0, sx1, sy1 = smt_apply_box(sbox, ("a0", "b0", "a1", "b1"))
+		in_req = f"(and (<= a0 {tx}) (<= {tx} a1) (<= b0 {ty}) (<= {ty} b1))"
+		in_src = f"(and (<= {sx0} x) (<= x {sx1}) (<= {sy0} y) (<= y {sy1}))"
+		L.append(f"(assert (not (= {in_req} {in_src})))")
+	L.append("(check-sat)")
+	L.append("(get-model)")
+	return "\n".join(L) + "\n"
+
+
+C06_REPLAY_MAIN = r'''
+// Native replay for C06 (transform consistency): a 4x4 source at zoom 2 whose tiles carry their own coordinates;
+// for the given flags the converting reader's lookup and stream must both place source tile p at T(p) = swap(flip(p)).
+use versatiles_container::{TilesConvertReader, TilesConverterParameters, MockTilesReader};
+use versatiles_core::types::*;
+
+#[derive(Debug)]
+struct Echo { p: TilesReaderParameters, tj: versatiles_core::tilejson::TileJSON }
+#[async_trait::async_trait]
+impl TilesReaderTrait for Echo {
+	fn get_source_name(&self) -> &str { "echo" }
+	fn get_container_name(&self) -> &str { "echo" }
+	fn get_parameters(&self) -> &TilesReaderParameters { &self.p }
+	fn override_compression(&mut self, _c: TileCompression) {}
+	fn get_tilejson(&self) -> &versatiles_core::tilejson::TileJSON { &self.tj }
+	async fn get_tile_data(&self, c: &TileCoord3) -> anyhow::Result<Option<Blob>> {
+		if self.p.bbox_pyramid.contains_coord(c) { Ok(Some(Blob::from(format!("{},{},{}", c.x, c.y, c.z)))) } else { Ok(None) }
+	}
+}
+
+fn main() {
+	let rt = tokio::runtime::Builder::new_multi_thread().enable_all().build().unwrap();
+	rt.block_on(run());
+}
+
+async fn run() {
+	let args: Vec<String> = std::env::args().collect();
+	let (flip, swap) = (args[1] == "true", args[2] == "true");
+	let mut pyr = TileBBoxPyramid::new_empty();
+	pyr.set_level_bbox(TileBBox::new(2, 0, 0, 3, 3).unwrap());
+	let echo = Echo { p: TilesReaderParameters::new(TileFormat::PBF, TileCompression::Uncompressed, pyr), tj: Default::default() };
+	let conv = TilesConvertReader::new_from_reader(Box::new(echo), TilesConverterParameters::new(None, None, false, flip, swap)).unwrap();
+	let mut bad = 0;
+	for x in 0..4u32 { for y in 0..4u32 {
+		let (mut tx, mut ty) = (x, y);
+		if flip { ty = 3 - ty; }
+		if swap { std::mem::swap(&mut tx, &mut ty); }
+		let want = format!("{},{},2", x, y);
+		let got = conv.get_tile_data(&TileCoord3::new(tx, ty, 2).unwrap()).await.unwrap();
+		if got.map(|b| b.as_str().to_string()) != Some(want.clone()) { bad += 1; println!("lookup at ({tx},{ty}) does not return source tile ({x},{y})"); }
+	}}
+	let items = conv.get_bbox_tile_stream(TileBBox::new(2, 0, 0, 3, 3).unwrap()).await.collect().await;
+	for (c, b) in items {
+		let v: Vec<u32> = b.as_str().split(',').map(|s| s.parse().unwrap()).collect();
+		let (mut tx, mut ty) = (v[0], v[1]);
+		if flip { ty = 3 - ty; }
+		if swap { std::mem::swap(&mut tx, &mut ty); }
+		if (c.x, c.y) != (tx, ty) { bad += 1; println!("stream delivers source tile ({},{}) at ({},{})", v[0], v[1], c.x, c.y); }
+	}
+	if bad > 0 { println!("REPRODUCED: {bad} mismatches"); std::process::exit(1); }
+	println!("not reproduced");
+}
+'''
+
+
+def c06_native_replay(flip, swap):
+	d = os.path.join(vlib.WORK, "c06-replay")
+	shutil.rmtree(d, ignore_errors=True)
+	os.makedirs(os.path.join(d, "src"))
+	with open(os.path.join(d, "Cargo.toml"), "w") as f:
+		f.write('[package]\nname = "c06_replay"\nversion = "0.0.0"\nedition = "2021"\n[workspace]\n[dependencies]\n'
+			f'versatiles_core = {{ path = "{MIRWS}/versatiles_core", default-features = false }}\n'
+			f'versatiles_container = {{ path = "{MIRWS}/versatiles_container", default-features = false }}\n'
+			'futures = "0.3"\nanyhow = "1"\nasync-trait = "0.1"\ntokio = { version = "1", features = ["rt-multi-thread"] }\n')
+	with open(os.path.join(d, "src", "main.rs"), "w") as f:
+		f.write(C06_REPLAY_MAIN.replace(", MockTilesReader", ""))
+	shutil.copyfile(os.path.join(vlib.REPO, "Cargo.lock"), os.path.join(d, "Cargo.lock"))
+	env = dict(vlib.ENV)
+	env["CARGO_TARGET_DIR"] = os.path.join(vlib.WORK, "target-c13")
+	p = subprocess.run(["cargo", "run", "--offline", "--release", "--", str(flip).lower(), str(swap).lower()], cwd=d, env=env,
+		stdout=subprocess.PIPE, stderr=subprocess.STDOUT, text=True)
+	return ("REPRODUCED" in p.stdout), p.stdout[-3000:]
+
+
+def run_c06_transform(prop, tier):
+	"""returns dict(rc, queries, samples, inconclusive, violations, lines, funcs, seconds)"""
+	out = {"rc": 0, "queries": [], "samples": [], "inconclusive": [], "violations": 0, "lines": [], "funcs": []}
+	try:
+		mir = dump_mir_container()
+		fi, si = flag_field_indices()
+		base = r"converter::<impl [^>]*>::"
+		cov, n1, h1 = transform_paths(mir, base + r"new_from_reader\(", fi, si)
+		look, n2, h2 = transform_paths(mir, base + r"get_tile_data::\{closure#0\}\(", fi, si, source_call=r"TilesReaderTrait>::get_tile_data")
+		sbox, n3, h3 = transform_paths(mir, base + r"get_bbox_tile_stream::\{closure#0\}\(", fi, si, source_call=r"TilesReaderTrait>::get_bbox_tile_stream")
+		smap, n4, h4 = transform_paths(mir, base + r"get_bbox_tile_stream::\{closure#0\}::\{closure#0\}\(", fi, si)
+		out["funcs"] = [h[:110] for h in (h1, h2, h3, h4)]
+		for n in n1 + n2 + n3 + n4:
+			out["inconclusive"].append(n + " (a data-dependent early exit is outside the transform model)")
+		solvers = ["z3"] if tier == "quick" else ["z3", "cvc5"]
+		known = vlib.load_known()
+		for flip in (False, True):
+			for swap in (False, True):
+				c = [t for t in cov[(flip, swap)] if t[0] in ("flip", "swap")]
+				l = [t for t in look[(flip, swap)] if t[0] in ("flip", "swap")]
+				sb = [t for t in sbox[(flip, swap)] if t[0] in ("flip", "swap")]
+				has_map = any(t[0] == "map_coord" for t in sbox[(flip, swap)])
+				sm = [t for t in smap[(flip, swap)] if t[0] in ("flip", "swap")] if has_map else []
+				sample = {"flip_y": flip, "swap_xy": swap, "coverage_calls": c, "lookup_calls": l, "stream_box_calls": sb, "stream_coord_calls": sm, "stream_installs_coord_map": has_map}
+				out["samples"].append(sample)
+				for kind in ("spec", "lookup", "stream_coord", "stream_box"):
+					smt = c06_query(kind, c, l, sb, sm)
+					verdicts = []
+					for s in solvers:
+						v, o, dt = run_solver(smt, s)
+						verdicts.append(v)
+						out["queries"].append({"flags": f"flip={flip} swap={swap}", "query": kind, "solver": s, "verdict": v, "expected": "unsat", "seconds": round(dt, 2)})
+					v0 = verdicts[0]
+					if any(v != v0 for v in verdicts) or v0 not in ("sat", "unsat"):
+						out["inconclusive"].append(f"transform {kind} flip={flip} swap={swap}: solver verdicts {verdicts}")
+						continue
+					if v0 == "sat":
+						vals = model_values(o)
+						what = (f"converting reader, flip_y={flip} swap_xy={swap}: {kind} path disagrees with the advertised coverage transform "
+							f"(z={vals.get('z')}, source tile ({vals.get('x')},{vals.get('y')})); calls: coverage {c}, lookup {l}, stream box {sb}, stream coords {sm}")
+						k = next((k for k in known.get("findings", []) if k["property"] == prop and k.get("harness") == f"transform_{kind}"), None)
+						if k:
+							out["lines"].append(f"KNOWN-FINDING: property={prop} {k['id']}: {k['what']}")
+							continue
+						rdir = os.path.join(vlib.VERIF, "replay", prop)
+						os.makedirs(rdir, exist_ok=True)
+						rpath = os.path.join(rdir, f"transform_{kind}_flip{int(flip)}_swap{int(swap)}.json")
+						json.dump({"what": what, "sample": sample, "model": vals}, open(rpath, "w"), indent=1)
+						rep, log = c06_native_replay(flip, swap)
+						open(rpath + ".native.log", "w").write(log)
+						if rep:
+							out["lines"].append(f"VIOLATION property={prop} replay={rpath} {what}")
+							out["violations"] += 1
+							out["rc"] = 1
+						else:
+							out["inconclusive"].append(f"transform {kind} flip={flip} swap={swap}: solver counterexample did not reproduce natively")
+	except Inconclusive as e:
+		out["inconclusive"].append("transform consistency (MIR): " + str(e))
+	return out
